@@ -939,6 +939,40 @@ def loops_of_(node):
     return out
 
 
+def r210(ctx):
+    """The choice of kernel for a block depends on that block: every size / uniformity test that
+    guards a kernel call in the block loop of inf_retis refers to the array handed to the kernel
+    (or its transpose), not to the whole idle matrix. (The exact permanent is affordable up to a
+    block size; testing the size of the whole matrix sends small blocks to the Monte-Carlo
+    estimate, which is not exact and draws from the scheduler stream.)"""
+    rid = "R-2.10"
+    tree = ctx.tree
+    f = tree.func(REPEX, "REPEX_state.inf_retis")
+    fl = flow_of(f)
+    cfg = fl.cfg
+    n = 0
+    for c in [c for c in walk_local(f) if isinstance(c, ast.Call) and last_name(c) in KERNELS and isinstance(c.func, ast.Attribute) and c.args and isinstance(c.args[0], ast.Name)]:
+        blk = c.args[0].id
+        # aliases of the block: transposes / plain copies
+        alias = {blk}
+        for d in fl.defs:
+            if d.kind == "assign" and d.value is not None and isinstance(d.value, ast.Attribute) and d.value.attr == "T" and isinstance(d.value.value, ast.Name) and d.value.value.id == blk:
+                alias.add(d.path)
+        at = cfg.node_of(c)
+        for e, t, bn in cfg.guards(at):
+            lens = [x for x in ast.walk(e) if isinstance(x, ast.Call) and last_name(x) == "len" and x.args]
+            for l in lens:
+                n += 1
+                a = l.args[0]
+                nm = a.id if isinstance(a, ast.Name) else None
+                if nm in alias:
+                    ctx.ok(rid, l, f"{last_name(c)}({blk}): the size test `{short(e, 40)}` refers to the block itself")
+                elif isinstance(bn.ast, ast.AST) and any(bn.ast is y for L in walk_local(f) if isinstance(L, ast.For) for y in ast.walk(L)):
+                    ctx.bad(rid, l, f"the test `{short(e, 50)}` that decides whether `{blk}` goes to {last_name(c)} looks at `{short(a, 30)}`, not at the block: with more idle ensembles than the threshold even small blocks are sent to the other kernel (the Monte-Carlo estimate instead of the exact permanent, or the other way round)", construct=f"kernel dispatch for {blk}: {short(e, 50)}")
+    if n < 2:
+        raise AnalysisError(f"R-2.10: only {n} size tests guard the kernel calls of the block loop")
+
+
 def run(ctx):
     ctx.rule("R-2.1", "cache coherence of the memoised P matrix: typestate NONE/OK/STALE over every method of REPEX_state with callee summaries; no stale read, no stale exit of an externally called method; only the getter stores a matrix", floor=20)
     ctx.rule("R-2.2", "the getter computes P from the live weight matrix and busy flags and memoises that result", floor=2)
@@ -957,6 +991,8 @@ def run(ctx):
     ctx.attempt(r27, ctx)
     ctx.rule("R-2.9", "random_prob divides by the number of permutation matrices it accumulated (initial identity + one per iteration): the estimate is doubly stochastic", floor=1)
     ctx.attempt(r29, ctx)
+    ctx.rule("R-2.10", "the kernel chosen for a block depends on that block (size tests of the dispatch refer to the array handed to the kernel)", floor=2)
+    ctx.attempt(r210, ctx)
 
 
 VARIANTS = [
@@ -996,5 +1032,6 @@ VARIANTS = [
     B("c02-mask-sliced-with-reduced-offset", REPEX, "        offset = self._offset - sum(bool_locks[: self._offset])\n", "        offset = self._offset - sum(bool_locks[: self._offset])\n        n_busy_minus = sum(bool_locks[:offset])\n", "R-2.8"),
     B("c02-montecarlo-divisor-off-by-one", REPEX, "        return out / (n + 1)\n", "        return out / n\n", "R-2.9", control=True, why="seeded C05_h"),
     K("c02-keep-montecarlo-from-zeros", REPEX, "        out = np.eye(len(arr), dtype=\"longdouble\")\n        current_state = np.eye(len(arr))", "        out = np.zeros((len(arr), len(arr)), dtype=\"longdouble\")\n        current_state = np.eye(len(arr))", also=[(REPEX, "        return out / (n + 1)\n", "        return out / n\n")]),
+    B("c02-exact-kernel-threshold-on-whole-matrix", REPEX, "                elif len(subarr) <= 12:", "                elif len(sorted_non_locked) <= 12:", "R-2.10", control=True, why="seeded C02_e"),
     K("c02-keep-tuple-index-store", REPEX, "                out[i][j] = f * scaled_arr[i][j]", "                out[i, j] = f * scaled_arr[i, j]"),
 ]
